@@ -40,7 +40,22 @@ def main():
         report["builds"] = rc1 == 0 and rc2 == 0
         rc, out = sh("go test -vet=off -count=1 ./cmd/ ./parser/ ./process/ ./types/", cwd=wt)
         fails = [l for l in out.splitlines() if l.startswith("--- FAIL")]
-        report["suite_passes"] = rc == 0 or (bool(fails) and all(any(x in f for x in FLAKY) for f in fails))
+        # the runtime tests of grits/cmd use 50 ms time-outs and fail at random on a loaded machine: a failing test is re-run alone (up to 4 times)
+        still = []
+        for f in fails:
+            tn = f.split()[2]
+            if any(x in tn for x in FLAKY):
+                continue
+            ok = False
+            for _ in range(4):
+                rc1, _o = sh("go test -vet=off -count=1 -run '^%s$' ./cmd/ ./parser/ ./process/ ./types/" % tn, cwd=wt)
+                if rc1 == 0:
+                    ok = True
+                    break
+            if not ok:
+                still.append(f)
+        fails = still if (rc != 0 and fails) else fails
+        report["suite_passes"] = rc == 0 or not still or all(any(x in f for x in FLAKY) for f in still)
         report["suite_fail_lines"] = fails[:5]
         if os.path.isdir(os.path.join(src, "seed_demo")):
             shutil.copytree(os.path.join(src, "seed_demo"), os.path.join(wt, "seed_demo"), dirs_exist_ok=True)
